@@ -44,7 +44,7 @@ type Work struct {
 	CtxMode int    `json:"ctx_mode,omitempty"` // 0 simulated cancellable context, 1 context.Background(), 2 vm.Execute (no context argument)
 }
 
-const nSites = 60
+const nSites = 68
 const nWraps = 7
 
 func siteSrc(k int, id string) string {
@@ -167,8 +167,24 @@ func siteSrc(k int, id string) string {
 		return "x" + id + " = h(" + id + ") > 0 ? h(1" + id + ") : h(2" + id + ")"
 	case 58:
 		return "x" + id + " = [h(" + id + "), h(1" + id + ")]\ny" + id + " = {\"k\": h(2" + id + ")}"
-	default:
+	case 59:
 		return "c" + id + " = make(chan int64, 2)\nc" + id + " <- h(" + id + ")\nx" + id + " = <-c" + id + "\nhch(c" + id + ")\nx" + id + ", ok" + id + " = <-c" + id
+	case 60:
+		return "x" + id + " = 1\nhz(&x" + id + ")"
+	case 61:
+		return "x" + id + " = 1\nobj.Z(&x" + id + ")"
+	case 62:
+		return "x" + id + " = 1\nfs" + id + " = [hz]\nfs" + id + "[0](&x" + id + ")"
+	case 63:
+		return "x" + id + " = 1\nhid(hz(&x" + id + "))"
+	case 64:
+		return "a" + id + " = make(chan int64, 1)\nb" + id + " = make(chan int64, 1)\na" + id + " <- 1\nhch(b" + id + ")\nb" + id + " <- a" + id
+	case 65:
+		return "a" + id + " = make(chan int64, 1)\nb" + id + " = make(chan int64, 1)\na" + id + " <- 1\nclose(b" + id + ")\nb" + id + " <- a" + id
+	case 66:
+		return "x" + id + " = 1\nhptr(&x" + id + ")\nh(x" + id + ")"
+	default:
+		return "a" + id + " = make(chan int64, 1)\nb" + id + " = make(chan int64, 1)\na" + id + " <- 1\nclose(b" + id + ")\ngo func() { b" + id + " <- a" + id + " }()"
 	}
 }
 
@@ -199,7 +215,13 @@ func Render(w *Work) string {
 	return strings.Join(parts, "\n") + "\n"
 }
 
-var faultKinds = []string{"panic-string", "panic-error", "panic-value", "runtime-error", "error-result", "nil-func", "close-chan", "cancel"}
+var faultKinds = []string{"panic-string", "panic-error", "panic-value", "runtime-error", "error-result", "nil-func", "close-chan", "cancel", "panic-typed-nil-error", "panic-nil"}
+
+// nilErr is an error type whose Error method dereferences the receiver: a
+// typed nil of it is a non-nil error value whose Error() panics.
+type nilErr struct{ msg string }
+
+func (e *nilErr) Error() string { return e.msg }
 
 type Prop struct{}
 
@@ -240,6 +262,7 @@ type T struct {
 }
 
 func (t *T) M(id int64) int64 { t.hook("M"); return id }
+func (t *T) Z() int64         { t.hook("Z"); return 0 }
 func (t T) V(id int64) int64  { t.hook("V"); return id }
 
 func (Prop) Run(t *testing.T, c *harness.Case, verbose bool) *harness.Result {
@@ -288,6 +311,11 @@ func (Prop) Run(t *testing.T, c *harness.Case, verbose bool) *harness.Result {
 				mm["x"] = 1
 			case "cancel":
 				ctx.Cancel()
+			case "panic-typed-nil-error":
+				var err error = (*nilErr)(nil)
+				panic(err)
+			case "panic-nil":
+				panic(nil)
 			}
 			return k
 		}
@@ -317,6 +345,8 @@ func (Prop) Run(t *testing.T, c *harness.Case, verbose bool) *harness.Result {
 		e.Define("hpf", func(format string, args ...interface{}) (int, error) { fault("hpf"); return len(args), nil })
 		e.Define("hs", func(s string) string { fault("hs"); return s })
 		e.Define("hnilv", func() interface{} { fault("hnilv"); return nil })
+		e.Define("hz", func() int64 { fault("hz"); return 0 })
+		e.Define("hptr", func(p *int64) { fault("hptr"); *p = 5 })
 		e.Define("nilobj", (*T)(nil))
 		e.Define("call", func(f func()) { fault("call"); f() })
 		e.Define("callr", func(f func(int64) int64) int64 { fault("callr"); return f(1) + 1 })
@@ -441,7 +471,7 @@ func (Prop) Shrink(c *harness.Case) []*harness.Case {
 			evs[i].Arg = ev.Arg - 1
 			emit(w, evs)
 		}
-		if ev.Kind != "panic-string" && ev.Kind != "nil-func" && ev.Kind != "close-chan" {
+		if ev.Kind != "panic-string" && ev.Kind != "nil-func" && ev.Kind != "close-chan" && ev.Kind != "panic-typed-nil-error" {
 			evs := append([]harness.EventSpec{}, c.Events...)
 			evs[i].Kind = "panic-string"
 			emit(w, evs)
